@@ -33,8 +33,8 @@ FUNCTIONS = [
     'src.generators.generators.gen_real_constant',
     'src.generators.generators.gen_bool_constant',
     'src.generators.utils.select_class_type',
-    'src.ir.type_utils.get_irrelevant_parameterized_type',
     'src.ir.type_utils.find_irrelevant_type',
+    'src.ir.type_utils._construct_related_types',
     'src.transformations.type_overwriting.TypeOverwriting.visit_program',
 ]
 CONFIG_INVARIANTS = {
@@ -73,7 +73,7 @@ ASSUMPTIONS = [
 NOT_UNDER_CONTRACT = ['src.generators.generator.Generator (all gen_* methods except the draws of the 18 listed in FUNCTIONS)',
                       'draws not under contract: Generator.generate_expr, gen_variable, gen_equality_expr, gen_logical_expr, '
                       'gen_comparison_expr, gen_conditional (1 of 3), _get_subclass, select_type, _create_type_params_from_etype; '
-                      'type_utils._construct_related_types, _get_type_arg_variance (proved under C08/C17), '
+                      'type_utils._construct_related_types, get_irrelevant_parameterized_type (its candidate list is non-empty only if the pool holds a type different from the excluded one: a property of the pools the pipeline builds, not of the function), _get_type_arg_variance (proved under C08/C17), '
                       '_compute_type_variable_assignments, choose_type; TypeOverwriting.visit_func_decl; '
                       'ProgramProcessor._get_transformation_schedule, inject_fault', 'src.transformations.*',
                       'src.translators.*', 'hephaestus.gen_program (only its try/except shape: 4 syntactic obligations)']
@@ -136,7 +136,21 @@ def custom_proof(tier):
 
 
 from props import C18_bounded as _b   # noqa: E402
-replay_search = _b.replay_search
+
+
+def replay_search(obligation, qual, seed, tier):
+    """a concrete failing input for a failed proof obligation: first the function-level inputs of this module (they name
+    the function they exercise), then the pipeline runs"""
+    short = (qual or '').split('.')[-1]
+    try:
+        for chk in (_primitive_array_check,):
+            n, out = chk()
+            for v in out:
+                if short and short in str(v.get('function', '')):
+                    return v
+    except Exception:
+        pass
+    return _b.replay_search(obligation, qual, seed, tier)
 REPO = os.environ.get('HEPH_REPO', '/repo')
 K_CLASSES, M_PARAMS, GET_TYPES_SEEDS = 8, 5, 12
 
@@ -301,8 +315,50 @@ def _driver_loop_check(tier):
     return n, uniq
 
 
+def _primitive_array_check():
+    """the subtype / supertype search on arrays of primitive types (Java and Groovy have them: int[] is Array<int>): the
+    related-instantiation step filters primitives out of its candidates and then draws from what is left"""
+    import importlib
+    import random as _r
+    for m in [k for k in sys.modules if k == 'src' or k.startswith('src.')]:
+        del sys.modules[m]
+    repo = os.environ.get('HEPH_REPO', '/repo')
+    if repo not in sys.path:
+        sys.path.insert(0, repo)
+    _r.seed(5)
+    n, out = 0, []
+    tu = importlib.import_module('src.ir.type_utils')
+    for lang in ('java', 'groovy'):
+        mod = importlib.import_module('src.ir.%s_types' % lang)
+        fac = [v for k, v in vars(mod).items() if k.endswith('BuiltinFactory') and isinstance(v, type) and v.__module__ == mod.__name__]
+        if not fac:
+            continue
+        f = fac[0]()
+        pool = list(f.get_non_nothing_types())
+        for prim in f.get_primitive_types():
+            arr = mod.Array.new([prim])
+            for fn in ('find_subtypes', 'find_supertypes'):
+                n += 1
+                try:
+                    getattr(tu, fn)(arr, pool, include_self=False, concrete_only=True)
+                except Exception as e:
+                    if not any(v['check'] == 'bounded[primitive-array:search-raises]' for v in out):
+                        import traceback
+                        fr = traceback.extract_tb(e.__traceback__)
+                        inner = [x for x in fr if '/src/' in x.filename]
+                        out.append(dict(check='bounded[primitive-array:search-raises]',
+                                        function='src.ir.type_utils._construct_related_types', lang=lang, query=str(arr),
+                                        call=fn, actual='%s: %s at %s:%s' % (type(e).__name__, e,
+                                                                             inner[-1].name if inner else '?',
+                                                                             inner[-1].lineno if inner else '?')))
+    return n, out
+
+
 def bounded(tier, seed, stop_first=False):
     r = _b.bounded(tier, seed, stop_first)
+    n6, extra6 = _primitive_array_check()
+    r['evaluations'] = r.get('evaluations', 0) + n6
+    r.setdefault('violations', []).extend(extra6)
     n, extra = _get_types_check()
     n3, extra3 = _word_pool_check()
     n4, extra4 = _hand_mutation_check(tier)
@@ -319,6 +375,11 @@ def replay(payload):
         n, out = _word_pool_check()
         for v in out:
             print('%s: %s (expected %s)' % (v['check'], v.get('actual'), v.get('expected')))
+        return not out
+    if str(fi.get('check', '')).startswith('bounded[primitive-array'):
+        n, out = _primitive_array_check()
+        for v in out:
+            print('%s: %s(%s) in %s raises %s' % (v['check'], v.get('call'), v.get('query'), v.get('lang'), v.get('actual')))
         return not out
     if str(fi.get('check', '')).startswith('bounded[driver-loop'):
         n, out = _driver_loop_check('thorough')
